@@ -53,6 +53,11 @@ def run(rep):
         ]
         for inst, ok, msg in checks:
             rep.check(ok, "C04-R1", ee.def_, inst, msg, line=s.line, detail={"guards": g, "target": tgt})
+        # every subscribed connection gets it: from the true edge of the predicate the next iteration is unreachable without the send
+        te = ee.edges_matching([r"^True=ConnectionState::is_subscribed_to_event\("])
+        nx = [c.bb for c in ee.calls if c.name == "next"]
+        ok = len(te) == 1 and len(nx) == 1 and not any(({nx[0]} | set(ee.exits())) & ee.reachable(v, without_nodes={s.bb}) for (_u, v) in te)
+        rep.check(ok, "C04-R1", ee.def_, "every-subscriber-served", "from the true edge of the subscription predicate the send must be reached before the next connection is visited (delivered to every subscriber)", line=s.line, detail={})
     # the closure extracting the object uuid from svc_uuids returns the object's uuid
     isub = prog.one(r"^aldrin_broker::broker::conn_state::ConnectionState::is_subscribed_to_event$")
     fields = set()
